@@ -1,5 +1,4 @@
-import NunavutVerif.Lemmas.CLiteralEval
-import NunavutVerif.Gen.CLiteralCfg
+import NunavutVerif.Lemmas.CLiteralFloat
 /-!
 # C05 (constants) — every DSDL constant is rendered as a literal that denotes exactly its value
 
@@ -105,5 +104,344 @@ theorem C05_int_literal_exact (d : Dialect) (cfg : LangCfg) (fmt : List FmtPiece
           exact eval_neg_ilit hw hn
         · rw [evalStr_of (lexStr_neg_macro (k + 1) false _ hl) (by simp [usesStaticCast]) rfl]
           exact eval_neg_ilit hw hn
+
+/-- The type of (i) has the signedness of the DSDL type, at most 64 bits, and its range contains the value. -/
+theorem C05_int_literal_type_fits (unsigned : Bool) (w : Nat) (hw : 1 ≤ w ∧ w ≤ 64) (v : Int)
+    (hv : intInRange unsigned w v) :
+    (expectedCType unsigned w).signed = !unsigned ∧ (expectedCType unsigned w).bits ≤ 64 ∧
+      (expectedCType unsigned w).inRange v = true := by
+  refine ⟨expected_signed unsigned w, ?_, ?_⟩
+  · unfold expectedCType
+    by_cases h1 : w ≤ 16 <;> by_cases h2 : w ≤ 32 <;> cases unsigned <;> simp [h1, h2, CType.bits]
+  · unfold intInRange at hv
+    unfold expectedCType
+    have fin : ∀ t : CType, (t.minVal ≤ v ∧ v ≤ t.maxVal) → t.inRange v = true := by
+      intro t h; simp [CType.inRange, h.1, h.2]
+    by_cases h1 : w ≤ 16
+    · have a : 2 ^ w ≤ 2 ^ 16 := pow2_le (by omega)
+      have b : 2 ^ (w - 1) ≤ 2 ^ 15 := pow2_le (by omega)
+      cases unsigned
+      · simp only [Bool.false_eq_true, if_false, h1, if_true] at hv ⊢
+        apply fin; simp only [CType.minVal, CType.maxVal, CType.signed, CType.bits, if_true]; omega
+      · simp only [if_true, h1] at hv ⊢
+        apply fin; simp only [CType.minVal, CType.maxVal, CType.signed, CType.bits, Bool.false_eq_true, if_false]; omega
+    · by_cases h2 : w ≤ 32
+      · have a : 2 ^ w ≤ 2 ^ 32 := pow2_le (by omega)
+        have b : 2 ^ (w - 1) ≤ 2 ^ 31 := pow2_le (by omega)
+        cases unsigned
+        · simp only [Bool.false_eq_true, if_false, h1, h2, if_true] at hv ⊢
+          apply fin; simp only [CType.minVal, CType.maxVal, CType.signed, CType.bits, if_true]; omega
+        · simp only [if_true, h1, h2, if_false] at hv ⊢
+          apply fin; simp only [CType.minVal, CType.maxVal, CType.signed, CType.bits, Bool.false_eq_true, if_false]; omega
+      · have a : 2 ^ w ≤ 2 ^ 64 := pow2_le (by omega)
+        have b : 2 ^ (w - 1) ≤ 2 ^ 63 := pow2_le (by omega)
+        cases unsigned
+        · simp only [Bool.false_eq_true, if_false, h1, h2] at hv ⊢
+          apply fin; simp only [CType.minVal, CType.maxVal, CType.signed, CType.bits, if_true]; omega
+        · simp only [if_true, h1, h2, if_false] at hv ⊢
+          apply fin; simp only [CType.minVal, CType.maxVal, CType.signed, CType.bits, Bool.false_eq_true, if_false]; omega
+
+/-- C++ initialises a member of the declared standard type (`std::intN_t` / `std::uintN_t`, `N = bestFit w`) with the
+literal: the value is inside the range of that type, so the conversion keeps it. -/
+theorem C05_cpp_declared_type_holds_value (unsigned : Bool) (w : Nat) (v : Int) (hv : intInRange unsigned w v)
+    (fit : Nat) (hfit : bestFit w = .ok fit) : intInRange unsigned fit v := by
+  have hle : w ≤ fit := by
+    unfold bestFit at hfit
+    split at hfit
+    · injection hfit with e; omega
+    · split at hfit
+      · injection hfit with e; omega
+      · split at hfit
+        · injection hfit with e; omega
+        · split at hfit
+          · injection hfit with e; omega
+          · cases hfit
+  have a : 2 ^ w ≤ 2 ^ fit := pow2_le hle
+  have b : 2 ^ (w - 1) ≤ 2 ^ (fit - 1) := pow2_le (by omega)
+  unfold intInRange at hv ⊢
+  cases unsigned
+  · simp only [Bool.false_eq_true, if_false] at hv ⊢; omega
+  · simp only [if_true] at hv ⊢; omega
+
+/-- Before fix 8a97f8c the minimum of `int64` was rendered `-9223372036854775808LL`: the negation of a literal that
+fits no type of its candidate list (gcc: "integer constant is so large that it is unsigned", `__int128`). -/
+theorem C05_int64_min_literal_before_fix_has_no_type (d : Dialect) :
+    filterLiteralBeforeFix Gen.cCfg (.frac ⟨-9223372036854775808, 1⟩) (.sint 64) = .ok "-9223372036854775808LL".toList ∧
+      evalStr d "-9223372036854775808LL".toList = .error .intLiteralNoType := by
+  refine ⟨by decide, ?_⟩
+  have hl : lexStr "-9223372036854775808LL".toList = some [.minus, .int 9223372036854775808 true false 2] := by decide
+  rw [evalStr_of hl (by simp [usesStaticCast]) (e := .neg (.ilit 9223372036854775808 true false 2)) (by decide)]
+  cases d <;> decide
+
+/-! ## (ii) `bool` and character constants -/
+
+/-- `bool` constants: C renders `true` / `false`, in C11 the `<stdbool.h>` macros of type `int` with values 1 / 0;
+in C++ the keywords of type `bool`. -/
+theorem C05_bool_literal (b : Bool) :
+    (filterLiteral Gen.cCfg (.bool b) .bool = .ok (if b then "true".toList else "false".toList) ∧
+      evalStr .c11 (if b then "true".toList else "false".toList) = .ok (.int .int (if b then 1 else 0)) ∧
+      evalStr .c11 (cMacroBody (if b then "true".toList else "false".toList)) = .ok (.int .int (if b then 1 else 0))) ∧
+    (filterLiteral Gen.cppCfg (.bool b) .bool = .ok (if b then "true".toList else "false".toList) ∧
+      evalStr .cpp14 (if b then "true".toList else "false".toList) = .ok (.int .bool (if b then 1 else 0))) := by
+  cases b <;> decide
+
+/-- `uint8 X = 'c'`: PyDSDL stores the code of the (one byte) character; the literal is that number in an unsigned
+type. -/
+theorem C05_char_constant (d : Dialect) (cfg : LangCfg) (fmt : List FmtPiece) (hcfg : cfg.castFormat = some fmt)
+    (c : Char) (hc : c.toNat < 128) :
+    ∃ s, filterLiteral cfg (charConstant c) (.uint 8) = .ok s ∧
+      evalStr d s = .ok (.int .uint c.toNat) ∧ evalStr d (cMacroBody s) = .ok (.int .uint c.toNat) := by
+  have h := C05_int_literal_exact d cfg fmt hcfg true 8 (by decide) (c.toNat : Int)
+    (by unfold intInRange; simp; omega)
+  simpa [charConstant, expectedCType] using h
+
+/-! ## (iii) floating-point constants -/
+
+/-- the C / C++ type of a floating constant of `w` bits (`_CFit.to_c_float`) -/
+def floatCType (w : Nat) : CType := if w ≤ 32 then .float else .double
+
+/-- What the rendered quotient denotes: the fraction rounded to nearest-even into binary64 by the division of the two
+exactly represented operands, then (for `float`) converted to binary32 by the cast. -/
+def floatDenotation (w : Nat) (f : Frac) : FVal :=
+  if w ≤ 32 then convertF binary64 binary32 (roundFrac binary64 f) else roundFrac binary64 f
+
+/-- the value lies inside the range of the C type (`|f| ≤ FLT_MAX` / `DBL_MAX`; PyDSDL's range check implies it) -/
+def FloatInRange (w : Nat) (f : Frac) : Prop := if w ≤ 32 then InRange32 f else InRange64 f
+
+/-- **Floating constants whose numerator and denominator are exactly representable in binary64** (the quotient
+branch of `_float_literal_expression`), every width up to 64 bits, every such fraction inside the range of the type:
+the C rendering `((T) (n.0 / d.0))` — alone and as the macro body — and the C++ rendering
+`static_cast<T>((n.0 / d.0))` lex, parse and evaluate without a range error to `floatDenotation`: for `double`
+exactly the fraction rounded to nearest-even (`roundFrac binary64`, characterised by `C05_round_*` below), for
+`float` that value converted once more to binary32; the result is a finite canonical member of the format. -/
+theorem C05_float_quotient_literal (w : Nat) (hw : w ≤ 64) (f : Frac) (hd : 0 < f.den)
+    (h1 : isExact f.num = true) (h2 : isExact (f.den : Int) = true) (hr : FloatInRange w f) :
+    (∃ s, filterLiteral Gen.cCfg (.frac f) (.float w) = .ok s ∧
+      evalStr .c11 s = .ok (.flt (floatCType w) (floatDenotation w f)) ∧
+      evalStr .c11 (cMacroBody s) = .ok (.flt (floatCType w) (floatDenotation w f))) ∧
+    (∃ s, filterLiteral Gen.cppCfg (.frac f) (.float w) = .ok s ∧
+      evalStr .cpp14 s = .ok (.flt (floatCType w) (floatDenotation w f))) ∧
+    (∃ m E, floatDenotation w f = .fin (decide (f.num < 0)) m E ∧ Canon (floatCType w).fmt m E) := by
+  have hn : IsExactNat f.num.natAbs := (isExact_iff _).1 h1
+  have hden : IsExactNat f.den := by have := (isExact_iff _).1 h2; simpa using this
+  have hty := floatTyStr_cases w
+  have hlex := lexesAs_quotExpr f.num f.den
+  have hk : quotSteps f.num f.den ≤ 8 := by
+    have : numSteps f.num ≤ 2 := by cases f.num <;> simp [numSteps]
+    unfold quotSteps; split <;> omega
+  -- the value of the inner expression and of the cast
+  have hq : ∀ d, eval d (quotAst f.num f.den) = .ok (.flt .double (roundFrac binary64 f)) :=
+    fun d => eval_quotAst d f hd hn hden
+  have hcast : ∀ d, eval d (.cast (tyOf (floatTyStr w)) (quotAst f.num f.den)) =
+      .ok (.flt (floatCType w) (floatDenotation w f)) ∧
+      ∃ m E, floatDenotation w f = .fin (decide (f.num < 0)) m E ∧ Canon (floatCType w).fmt m E := by
+    intro d
+    unfold FloatInRange at hr
+    unfold floatCType floatDenotation floatTyStr tyOf
+    by_cases h32 : w ≤ 32
+    · rw [if_pos h32] at hr
+      simp only [h32, if_true]
+      obtain ⟨m, E, m', E', e64, _, ecv, c32⟩ := roundFrac32_fin f hd hr
+      have hq' := hq d
+      rewrite [e64] at hq'
+      rewrite [e64, ecv]
+      exact ⟨eval_cast_float d _ hq' ecv, m', E', Eq.refl _, by rewrite [fmt_float]; exact c32⟩
+    · rw [if_neg h32] at hr
+      simp only [h32, if_false]
+      have hne : ("double".toList = "float".toList) = False := by decide
+      simp only [hne, if_false]
+      obtain ⟨m, E, e64, c64⟩ := roundFrac64_fin f hd hr
+      have hq' := hq d
+      rewrite [e64] at hq'
+      rewrite [e64]
+      exact ⟨eval_cast_double d _ hq' c64, m, E, Eq.refl _, by rewrite [fmt_double]; exact c64⟩
+  have hnoCast : usesStaticCast (quotToks f.num f.den) = false := by
+    have := usesStaticCast_quotToks f.num f.den [] [] rfl rfl
+    simpa using this
+  refine ⟨⟨_, filterLiteral_c_exact f hw h1 h2, ?_, ?_⟩, ⟨_, filterLiteral_cpp_exact f hw h1 h2, ?_⟩, (hcast .c11).2⟩
+  · rewrite [evalStr_of (lexStr_cCast hty hlex hk) ?_ (parse_cCast hty f.num f.den)]
+    · exact (hcast .c11).1
+    · have := usesStaticCast_quotToks f.num f.den [.lp, .lp, .ident (floatTyStr w), .rp] [.rp]
+        (by rcases hty with h | h <;> rw [h] <;> decide) (by decide)
+      simp only [List.cons_append, List.nil_append] at this
+      rw [this]; rfl
+  · rewrite [evalStr_of (lexStr_cCast_macro hty hlex hk) ?_ (parse_cCast_macro hty f.num f.den)]
+    · exact (hcast .c11).1
+    · have := usesStaticCast_quotToks f.num f.den [.lp, .lp, .lp, .ident (floatTyStr w), .rp] [.rp, .rp]
+        (by rcases hty with h | h <;> rw [h] <;> decide) (by decide)
+      simp only [List.cons_append, List.nil_append] at this
+      rw [this]; rfl
+  · rewrite [evalStr_of (lexStr_cppCast hty hlex hk) (by rfl) (parse_cppCast hty f.num f.den)]
+    exact (hcast .cpp14).1
+
+/-- `float` constants of the quotient branch go through two roundings (binary64 division, then the cast).  The
+result is not always the correctly rounded binary32 value — see the witness below — but it always lies **strictly
+within one unit in the last place** of it, which is what the property demands:
+`| m' * 2^E' / 2^149 - |num| / den | < 2^E' / 2^149`, stated on integers.  No exactness hypothesis: this is a fact
+about `floatDenotation`, so it covers the decimal fallback as well. -/
+theorem C05_float32_within_one_ulp (w : Nat) (hw : w ≤ 32) (f : Frac) (hd : 0 < f.den) (s : Bool) (m' E' : Nat)
+    (h : floatDenotation w f = .fin s m' E') :
+    m' * 2 ^ E' * f.den < f.num.natAbs * 2 ^ 149 + 2 ^ E' * f.den ∧
+      f.num.natAbs * 2 ^ 149 < m' * 2 ^ E' * f.den + 2 ^ E' * f.den := by
+  unfold floatDenotation at h
+  rw [if_pos hw] at h
+  exact float32_within_one_ulp f hd h
+
+/-- Witness of the double rounding: `float32 X = 2251799947902975 / 2251799813685247` (both terms exact in
+binary64; the fraction is `1 + 2^-24 + 2^-75`, just above the midpoint of two adjacent binary32 numbers).  The
+generated `((float) (2251799947902975.0 / 2251799813685247.0))` is `1.0f`, the correctly rounded binary32 value is the
+next number up.  Within one ulp, as the property allows; replayed on gcc / clang / g++ by the harness. -/
+example : floatDenotation 32 ⟨2251799947902975, 2251799813685247⟩ = .fin false 8388608 126 ∧
+    roundFrac binary32 ⟨2251799947902975, 2251799813685247⟩ = .fin false 8388609 126 := by decide +kernel
+
+/-
+Full statement for the decimal-fallback branch of `_float_literal_expression` (numerator or denominator not exactly
+representable in binary64: the filter renders `repr(numerator / denominator)`):
+
+  for every fraction `f` in the range of the type, the rendered C / C++ literal evaluates to `floatDenotation w f`.
+
+What is proved: exactly this, under the hypothesis that the decimal text `repr` prints for the (already correctly
+rounded) quotient reads back as the same double — `reprReadsBack m E = true`, an executable check (the text is one
+preprocessing number starting with a digit, it is a floating literal, and that literal correctly rounded is `m * 2^E`
+again).  What is missing is the round-trip theorem of shortest-digit printing (17 significant digits always suffice;
+`shortestDigits?` searches 1..17 digits by reading candidates back, so only the existence of a 17-digit candidate is
+open).  The harness evaluates `reprReadsBack` on every double it meets (`short` requests): no counterexample.
+The zero results (`0.0`, `-0.0`: fractions below half the smallest subnormal) need no hypothesis.
+-/
+theorem C05_float_fallback_literal_partial (w : Nat) (hw : w ≤ 64) (f : Frac) (hd : 0 < f.den)
+    (hne : (isExact f.num && isExact (f.den : Int)) = false) (hr : FloatInRange w f ∧ InRange64 f)
+    (hrb : ∀ s m E, roundFrac binary64 f = .fin s m E → reprReadsBack m E = true) :
+    (∃ s, filterLiteral Gen.cCfg (.frac f) (.float w) = .ok s ∧
+      evalStr .c11 s = .ok (.flt (floatCType w) (floatDenotation w f)) ∧
+      evalStr .c11 (cMacroBody s) = .ok (.flt (floatCType w) (floatDenotation w f))) ∧
+    (∃ s, filterLiteral Gen.cppCfg (.frac f) (.float w) = .ok s ∧
+      evalStr .cpp14 s = .ok (.flt (floatCType w) (floatDenotation w f))) := by
+  obtain ⟨m, E, e64, c64⟩ := roundFrac64_fin f hd hr.2
+  obtain ⟨mant, e10, hdig, hpp, hfl, htok, hrd⟩ := reprReadsBack_inv (hrb _ m E e64)
+  have hty := floatTyStr_cases w
+  have hlex := lexesAs_repr (decide (f.num < 0)) hdig hpp hfl htok
+  have hk : (if decide (f.num < 0) = true then 2 else 1) ≤ 8 := by split <;> omega
+  have htoks : (if decide (f.num < 0) = true then [Tok.minus, Tok.flt mant e10 .none] else [Tok.flt mant e10 .none]) =
+      fbToks (decide (f.num < 0)) mant e10 := rfl
+  rw [htoks] at hlex
+  have hq : ∀ d, eval d (fbAst (decide (f.num < 0)) mant e10) = .ok (.flt .double (.fin (decide (f.num < 0)) m E)) :=
+    fun d => eval_fbAst d _ hrd
+  have hcast : ∀ d, eval d (.cast (tyOf (floatTyStr w)) (fbAst (decide (f.num < 0)) mant e10)) =
+      .ok (.flt (floatCType w) (floatDenotation w f)) := by
+    intro d
+    unfold floatCType floatDenotation floatTyStr tyOf
+    by_cases h32 : w ≤ 32
+    · have hr32 := hr.1
+      unfold FloatInRange at hr32
+      rw [if_pos h32] at hr32
+      simp only [h32, if_true]
+      obtain ⟨m2, E2, m', E', e64', _, ecv, _⟩ := roundFrac32_fin f hd hr32
+      have em : FVal.fin (decide (f.num < 0)) m E = FVal.fin (decide (f.num < 0)) m2 E2 := by rw [← e64, ← e64']
+      rewrite [e64', ecv]
+      have hq' := hq d
+      rewrite [em] at hq'
+      exact eval_cast_float d _ hq' ecv
+    · simp only [h32, if_false]
+      have hne' : ("double".toList = "float".toList) = False := by decide
+      simp only [hne', if_false]
+      rewrite [e64]
+      exact eval_cast_double d _ (hq d) c64
+  refine ⟨⟨_, filterLiteral_c_fallback f hd hw hne e64, ?_, ?_⟩, ⟨_, filterLiteral_cpp_fallback f hd hw hne e64, ?_⟩⟩
+  · rewrite [evalStr_of (lexStr_cCast hty hlex hk) ?_ (parse_cCast_fb hty _ mant e10)]
+    · exact hcast .c11
+    · have := usesStaticCast_fbToks (decide (f.num < 0)) mant e10 [.lp, .lp, .ident (floatTyStr w), .rp] [.rp]
+        (by rcases hty with h | h <;> rw [h] <;> decide) (by decide)
+      simp only [List.cons_append, List.nil_append] at this
+      rw [this]; rfl
+  · rewrite [evalStr_of (lexStr_cCast_macro hty hlex hk) ?_ (parse_cCast_macro_fb hty _ mant e10)]
+    · exact hcast .c11
+    · have := usesStaticCast_fbToks (decide (f.num < 0)) mant e10 [.lp, .lp, .lp, .ident (floatTyStr w), .rp] [.rp, .rp]
+        (by rcases hty with h | h <;> rw [h] <;> decide) (by decide)
+      simp only [List.cons_append, List.nil_append] at this
+      rw [this]; rfl
+  · rewrite [evalStr_of (lexStr_cppCast hty hlex hk) (by rfl) (parse_cppCast_fb hty _ mant e10)]
+    exact hcast .cpp14
+
+/-! ### what "rounded to nearest-even" means: `roundFrac` characterised
+
+`roundFrac g f = .fin s m E` denotes `(-1)^s * m * 2^E / 2^g.bias`.  Distances are stated on integers: both values
+multiplied by `f.den * 2^g.bias`, i.e. `m * 2^E * f.den` against `|f.num| * 2^g.bias`. -/
+
+/-- The result is a member of the format in canonical form with the sign of the fraction. -/
+theorem C05_round_in_format (g : Fmt) (hp : 1 ≤ g.prec) (f : Frac) (hd : 0 < f.den) (s : Bool) (m E : Nat)
+    (h : roundFrac g f = .fin s m E) :
+    s = decide (f.num < 0) ∧ m < 2 ^ g.prec ∧ (E = 0 ∨ 2 ^ (g.prec - 1) ≤ m) ∧ E ≤ g.emax := by
+  obtain ⟨hs, hr, he⟩ := roundFrac_fin_inv h
+  have hc := roundNat_canonical (p := g.prec) (N := f.num.natAbs * 2 ^ g.bias) (D := f.den) hp hd
+  rw [hr] at hc
+  exact ⟨hs, hc.1, hc.2, he⟩
+
+/-- **Nearest**: no member `m' * 2^E'` of the format (any exponent, any significand below `2^prec`) is closer to
+the fraction than the result. -/
+theorem C05_round_nearest (g : Fmt) (hp : 1 ≤ g.prec) (f : Frac) (hd : 0 < f.den) (s : Bool) (m E : Nat)
+    (h : roundFrac g f = .fin s m E) (m' E' : Nat) (hm' : m' < 2 ^ g.prec) :
+    (((m * 2 ^ E * f.den : Nat) : Int) - ((f.num.natAbs * 2 ^ g.bias : Nat) : Int)).natAbs ≤
+      (((m' * 2 ^ E' * f.den : Nat) : Int) - ((f.num.natAbs * 2 ^ g.bias : Nat) : Int)).natAbs := by
+  obtain ⟨_, hr, _⟩ := roundFrac_fin_inv h
+  have := roundNat_nearest (p := g.prec) (N := f.num.natAbs * 2 ^ g.bias) (D := f.den) hp hd m' E' hm'
+  rw [hr] at this
+  simp only at this
+  generalize ((m * 2 ^ E * f.den : Nat) : Int) = a at this ⊢
+  generalize ((m' * 2 ^ E' * f.den : Nat) : Int) = b at this ⊢
+  generalize ((f.num.natAbs * 2 ^ g.bias : Nat) : Int) = c at this ⊢
+  omega
+
+/-- **Ties to even**: when the fraction lies exactly half way between two adjacent multiples of `2^E`, the
+significand of the result is even. -/
+theorem C05_round_ties_even (g : Fmt) (hp : 2 ≤ g.prec) (f : Frac) (hd : 0 < f.den) (s : Bool) (m E : Nat)
+    (h : roundFrac g f = .fin s m E) (k : Nat)
+    (htie : 2 * (f.num.natAbs * 2 ^ g.bias) = (2 * k + 1) * (2 ^ E * f.den)) : m % 2 = 0 := by
+  obtain ⟨_, hr, _⟩ := roundFrac_fin_inv h
+  have := roundNat_tie_even' (p := g.prec) (N := f.num.natAbs * 2 ^ g.bias) (D := f.den) hp hd k (by rw [hr]; exact htie)
+  rw [hr] at this
+  exact this
+
+/-- **A member of the format is returned unchanged** (so the rounding is the identity on representable fractions;
+with `C05_round_nearest` this is "correctly rounded"). -/
+theorem C05_round_exact_on_members (g : Fmt) (hp : 1 ≤ g.prec) (s : Bool) (m E : Nat) (hc : Canon g m E) (hm : 0 < m) :
+    roundFrac g ⟨if s then -((m * 2 ^ E : Nat) : Int) else ((m * 2 ^ E : Nat) : Int), 2 ^ g.bias⟩ = .fin s m E := by
+  unfold roundFrac
+  have hpos : 0 < m * 2 ^ E := Nat.mul_pos hm (pow2_pos _)
+  have hs : ∀ V : Nat, 0 < V → decide ((if s then -(V : Int) else (V : Int)) < 0) = s := by
+    intro V hV; cases s <;> simp <;> omega
+  have ha : ∀ V : Nat, (if s then -(V : Int) else (V : Int)).natAbs = V := by
+    intro V; cases s <;> simp
+  simp only [hs _ hpos, ha]
+  exact roundTo_self hp (pow2_pos _) hc
+
+/-! ## (iv) the Python target -/
+
+/-- `bool` constants of the generated Python class: `True` / `False` evaluate to the DSDL value. -/
+theorem C05_py_bool_constant (b : Bool) :
+    pyConstantExpr (.bool b) .bool = .ok (if b then "True".toList else "False".toList) ∧
+      pyEvalStr (if b then "True".toList else "False".toList) = .ok (.bool b) := by
+  cases b <;> decide
+
+/-- Integer constants of the generated Python class: the decimal text evaluates to exactly the integer — for every
+integer (Python integers are unbounded), hence for every value of every DSDL integer type. -/
+theorem C05_py_int_constant (v : Int) (unsigned : Bool) (w : Nat) :
+    ∃ s, pyConstantExpr (.frac ⟨v, 1⟩) (if unsigned then .uint w else .sint w) = .ok s ∧ pyEvalStr s = .ok (.int v) := by
+  refine ⟨intStr v, by cases unsigned <;> rfl, ?_⟩
+  have hl : lexStr (intStr v) = some (pyIntToks v) :=
+    lexStr_of_lexesAs (lexesAs_intStr v) (by have := pyIntSteps_le v; omega)
+  rw [pyEvalStr_of hl (pyParse_int v)]
+  exact pyEval_int v
+
+/-- Floating constants of the generated Python class are written `numerator / denominator`: CPython's integer true
+division is correctly rounded, so the attribute is the fraction rounded to nearest-even into binary64 (the only
+floating type of Python) — for every fraction in the binary64 range, whatever its terms (no exactness condition, no
+`OverflowError`). -/
+theorem C05_py_float_constant (w : Nat) (f : Frac) (hd : 0 < f.den) (hr : InRange64 f) :
+    ∃ s, pyConstantExpr (.frac f) (.float w) = .ok s ∧ pyEvalStr s = .ok (.float (roundFrac binary64 f)) ∧
+      ∃ m E, roundFrac binary64 f = .fin (decide (f.num < 0)) m E ∧ Canon binary64 m E := by
+  obtain ⟨m, E, e64, c64⟩ := roundFrac64_fin f hd hr
+  refine ⟨_, rfl, ?_, m, E, e64, c64⟩
+  show pyEvalStr (intStr f.num ++ " / ".toList ++ natStr f.den) = _
+  rw [pyEvalStr_of (lexStr_py_quot f.num f.den) (pyParse_quot f.num f.den _), pyEval_quot f hd e64, e64]
 
 end NunavutVerif.CLiteral
